@@ -48,6 +48,11 @@ def main():
                 items.append({'id': d, 'patch': pf, 'expect': [meta.get('property')] if meta.get('property') else [], 'what': meta.get('what', '')})
     elif '--refactors' in args:
         items = json.load(open(os.path.join(HERE, 'refactors.json')))
+        # behaviour-preserving refactorings written by independent sub-agents (whole patches; notes in refactor_patches/*_notes.md)
+        rp = os.path.join(HERE, 'refactor_patches')
+        for f in sorted(os.listdir(rp)) if os.path.isdir(rp) else []:
+            if f.endswith('.diff'):
+                items.append({'id': f[:-5], 'patch': os.path.join(rp, f), 'expect': [], 'what': 'agent-written behaviour-preserving refactoring'})
     else:
         items = json.load(open(os.path.join(HERE, 'mutants.json')))
     ok = True
